@@ -54,7 +54,16 @@ Definition check_tri (c : tri_case) : nat :=
   else 2%nat.
 
 (* ------------------------------------------------------------------ deepcopy / re-construction *)
-(* syntactic equality of value trees *)
+(* an instance __dict__ sorted by attribute name: the order in which a hierarchy of
+   constructors assigns the attributes is C09's subject, not C10's *)
+Fixpoint ins_field (x : aid * val) (l : list (aid * val)) : list (aid * val) :=
+  match l with
+  | [] => [x]
+  | y :: t => if Nat.leb (fst x) (fst y) then x :: l else y :: ins_field x t
+  end.
+Definition sort_fields (l : list (aid * val)) : list (aid * val) := fold_right ins_field [] l.
+
+(* syntactic equality of value trees (instance dicts up to order) *)
 Fixpoint syn_eqb (n : nat) (a b : val) {struct n} : bool :=
   match n with
   | O => false
@@ -69,7 +78,8 @@ Fixpoint syn_eqb (n : nat) (a b : val) {struct n} : bool :=
           forall2b (fun p q => syn_eqb n' (fst p) (fst q) && syn_eqb n' (snd p) (snd q)) d1 d2
       | VInst c1 d1, VInst c2 d2 =>
           Nat.eqb c1 c2 &&
-          forall2b (fun p q => Nat.eqb (fst p) (fst q) && syn_eqb n' (snd p) (snd q)) d1 d2
+          forall2b (fun p q => Nat.eqb (fst p) (fst q) && syn_eqb n' (snd p) (snd q))
+                   (sort_fields d1) (sort_fields d2)
       | _, _ => false
       end
   end.
